@@ -1290,3 +1290,275 @@ func listingSessionFree(c *Ctx, rule string) {
 		c.R.Hold(rule, "listing handlers never read session data", "", sprintf("no (Session).GetData in code reachable from the %d listing handlers", len(roots)))
 	}
 }
+
+// ---------------------------------------------------------------- R-register-replaces (C12)
+// "A registration made under a name that is taken replaces the entry": a registering function (one that updates a
+// registry map in place) stores the new entry on every path its input validation lets through. A return that skips the
+// update and is decided by looking at the EXISTING entry of the map ("the same descriptor is registered already")
+// keeps the old entry — and with it the old handler — although the caller registered a new one.
+func c12RegisterReplaces(c *Ctx, ri *registryInfo, accs []Access) {
+	type site struct {
+		fn   *ssa.Function
+		ups  map[*ssa.BasicBlock]bool
+		at   ssa.Instruction
+		name string
+	}
+	sites := map[*ssa.Function]*site{}
+	for _, a := range accs {
+		if a.Kind != "map-update" || !ri.maps[a.Field] || a.Init || a.Local {
+			continue
+		}
+		s := sites[a.Fn]
+		if s == nil {
+			s = &site{fn: a.Fn, ups: map[*ssa.BasicBlock]bool{}, at: a.Instr, name: a.Field}
+			sites[a.Fn] = s
+		}
+		s.ups[a.Instr.Block()] = true
+	}
+	var derivesFromLookup func(v ssa.Value, d int) bool
+	derivesFromLookup = func(v ssa.Value, d int) bool {
+		if v == nil || d > 6 {
+			return false
+		}
+		switch x := v.(type) {
+		case *ssa.Lookup:
+			if f, _, ok := ir.LoadedField(x.X); ok && ri.maps[f.Key()] {
+				return true
+			}
+			return false
+		case *ssa.Extract:
+			if x.Index == 1 {
+				return false // the found-flag: deciding bookkeeping (the order slice) by it is the normal form
+			}
+			return derivesFromLookup(x.Tuple, d+1)
+		case *ssa.UnOp:
+			return derivesFromLookup(x.X, d+1)
+		case *ssa.FieldAddr:
+			return derivesFromLookup(x.X, d+1)
+		case *ssa.Field:
+			return derivesFromLookup(x.X, d+1)
+		case *ssa.BinOp:
+			return derivesFromLookup(x.X, d+1) || derivesFromLookup(x.Y, d+1)
+		case *ssa.Phi:
+			for _, e := range x.Edges {
+				if derivesFromLookup(e, d+1) {
+					return true
+				}
+			}
+		case *ssa.Call:
+			for _, a := range x.Call.Args {
+				if derivesFromLookup(a, d+1) {
+					return true
+				}
+			}
+		case *ssa.MakeInterface:
+			return derivesFromLookup(x.X, d+1)
+		case *ssa.ChangeInterface:
+			return derivesFromLookup(x.X, d+1)
+		}
+		return false
+	}
+	n := 0
+	for _, fn := range sortedFuncsKeys(sites) {
+		s := sites[fn]
+		if len(fn.Blocks) == 0 {
+			continue
+		}
+		n++
+		skip := flow.BlocksReachableAvoiding(fn.Blocks[0], s.ups)
+		pd := flow.NewPostDom(fn)
+		var bad ssa.Instruction
+		for _, b := range fn.Blocks {
+			if !skip[b] && b != fn.Blocks[0] || s.ups[b] {
+				continue
+			}
+			ret, ok := b.Instrs[len(b.Instrs)-1].(*ssa.Return)
+			if !ok {
+				continue
+			}
+			for _, g := range pd.ControlDepsTransitive(b) {
+				if derivesFromLookup(g.If.Cond, 0) {
+					bad = ret
+				}
+			}
+		}
+		detail := ""
+		if bad != nil {
+			detail = sprintf("%s can return (%s) without storing the entry it was given, on a path chosen by comparing with the entry already in %s: a registration under a taken name is then not a replacement — the old handler keeps answering", fname(fn), ipos(c, bad), s.name)
+		}
+		c.R.Check(bad == nil, "R-register-replaces", sprintf("paths of %s around its update of %s", fname(fn), s.name), c.Pos(s.at.Pos()),
+			"no return that skips the update is decided by the existing entry", detail)
+	}
+	c.R.Min("R-register-replaces", 3)
+}
+
+// ---------------------------------------------------------------- R-attempts-under-policy (C17)
+// The waits between attempts are the executor's: attempt k+1 starts after the k-th backoff interval. A transport that
+// makes an attempt of its own before it hands the same operation to the executor (a "fast path" that falls through to
+// the retry loop), or runs the executor under a locally adjusted copy of the configuration, shifts every wait by one
+// position — the first retry follows the failure at once — although the number of attempts is unchanged. At every
+// call of the executor: (a) the configuration argument is the configured one (a member or parameter), not a record
+// built or modified in the calling function; (b) the function the operation closure calls is not also called
+// directly on a path that goes on to the executor.
+func c17AttemptsUnderPolicy(c *Ctx, exec *ssa.Function) {
+	n := 0
+	for _, fn := range c.P.LibFns {
+		ir.EachInstr(fn, func(_ *ssa.BasicBlock, _ int, in ssa.Instruction) {
+			call, ok := in.(*ssa.Call)
+			if !ok || ir.StaticCallee(call) != exec {
+				return
+			}
+			n++
+			// (a) configuration
+			cfgLocal := ""
+			for _, a := range call.Call.Args {
+				pt, ok := a.Type().Underlying().(*types.Pointer)
+				if !ok {
+					continue
+				}
+				if _, isStruct := pt.Elem().Underlying().(*types.Struct); !isStruct {
+					continue
+				}
+				if al, ok := a.(*ssa.Alloc); ok {
+					cfgLocal = al.Comment
+				}
+			}
+			c.R.Check(cfgLocal == "", "R-attempts-under-policy", sprintf("configuration of the executor call in %s", fname(fn)), c.Pos(call.Pos()),
+				"the configured record is handed to the executor as it is",
+				sprintf("%s runs the retry executor under %q, a configuration record it built or adjusted itself, instead of the configured one: the attempt budget and the backoff sequence the user configured are not the ones applied", fname(fn), cfgLocal))
+			// (b) the operation's attempt function
+			var opFn *ssa.Function
+			for _, a := range call.Call.Args {
+				if mc, ok := a.(*ssa.MakeClosure); ok {
+					opFn, _ = mc.Fn.(*ssa.Function)
+				}
+			}
+			if opFn == nil {
+				return
+			}
+			attempt := map[*ssa.Function]bool{}
+			ir.EachCall(opFn, func(cc ssa.CallInstruction) {
+				if sc := ir.StaticCallee(cc); sc != nil && c.P.IsLib(sc) && clientSide(c, sc) {
+					attempt[sc] = true
+				}
+			})
+			var bad ssa.Instruction
+			ir.EachCall(fn, func(cc ssa.CallInstruction) {
+				if bad != nil || cc == ssa.CallInstruction(call) {
+					return
+				}
+				if sc := ir.StaticCallee(cc); sc != nil && attempt[sc] && flow.Reaches(cc, call) {
+					bad = cc
+				}
+			})
+			detail := ""
+			if bad != nil {
+				detail = sprintf("%s makes an attempt of its own (%s) and, when it fails, goes on to hand the same operation to the retry executor: the executor's first attempt is then the caller's first RETRY and is made without any wait, every later wait is one position short of the configured sequence", fname(fn), ipos(c, bad))
+			}
+			c.R.Check(bad == nil, "R-attempts-under-policy", sprintf("attempts outside the executor in %s", fname(fn)), c.Pos(call.Pos()),
+				"every attempt of a retried operation is made by the executor", detail)
+		})
+	}
+	c.R.Min("R-attempts-under-policy", 4)
+}
+
+// ---------------------------------------------------------------- R-attempt-ctx (C17)
+// "Cancelling the caller's context ends the sequence at once" — also while an attempt is in flight: the HTTP request an
+// attempt makes runs under the context the caller passed down. In every function reachable from a retried operation,
+// the context of http.NewRequestWithContext descends (through context.With* and helpers) from a context parameter of
+// that function — not from a context kept in a member of the transport (the event stream's), under which the request
+// would keep running after the caller gave up.
+func c17AttemptCtx(c *Ctx, exec *ssa.Function) {
+	var ops []*ssa.Function
+	for _, fn := range c.P.LibFns {
+		ir.EachCall(fn, func(call ssa.CallInstruction) {
+			if ir.StaticCallee(call) != exec {
+				return
+			}
+			for _, a := range call.Common().Args {
+				if mc, ok := a.(*ssa.MakeClosure); ok {
+					if f, ok := mc.Fn.(*ssa.Function); ok {
+						ops = append(ops, f)
+					}
+				}
+			}
+		})
+	}
+	if len(ops) < 2 {
+		c.R.Break("R-attempt-ctx: only %d retried operations found", len(ops))
+		return
+	}
+	var fromParam func(fn *ssa.Function, v ssa.Value, d int, seen map[ssa.Value]bool) bool
+	fromParam = func(fn *ssa.Function, v ssa.Value, d int, seen map[ssa.Value]bool) bool {
+		if v == nil || d > 12 || seen[v] {
+			return false
+		}
+		seen[v] = true
+		switch x := v.(type) {
+		case *ssa.Parameter:
+			return ir.TypeStr(x.Type()) == "context.Context"
+		case *ssa.FreeVar:
+			return true // a closure's captured context: judged where the closure is made (the operation closures capture the caller's)
+		case *ssa.Extract:
+			return fromParam(fn, x.Tuple, d+1, seen)
+		case *ssa.Call:
+			for _, a := range x.Call.Args {
+				if ir.TypeStr(a.Type()) == "context.Context" && fromParam(fn, a, d+1, seen) {
+					return true
+				}
+			}
+			return false
+		case *ssa.Phi:
+			for _, e := range x.Edges {
+				if !fromParam(fn, e, d+1, seen) {
+					return false
+				}
+			}
+			return len(x.Edges) > 0
+		case *ssa.MakeInterface:
+			return fromParam(fn, x.X, d+1, seen)
+		case *ssa.ChangeInterface:
+			return fromParam(fn, x.X, d+1, seen)
+		case *ssa.UnOp:
+			if x.Op != token.MUL {
+				return false
+			}
+			if al, ok := x.X.(*ssa.Alloc); ok {
+				all, any := true, false
+				for _, r := range *al.Referrers() {
+					if st, ok := r.(*ssa.Store); ok && st.Addr == ssa.Value(al) {
+						any = true
+						if !fromParam(fn, st.Val, d+1, seen) {
+							all = false
+						}
+					}
+				}
+				return any && all
+			}
+			if _, ok := x.X.(*ssa.FreeVar); ok {
+				return true
+			}
+			return false // a member
+		}
+		return false
+	}
+	n := 0
+	for _, fn := range sortedFuncs(c.ReachSync(ops...)) {
+		if !clientSide(c, fn) {
+			continue
+		}
+		cnt := 0
+		ir.EachCall(fn, func(call ssa.CallInstruction) {
+			if ir.CallName(call) != "net/http.NewRequestWithContext" || len(call.Common().Args) < 1 {
+				return
+			}
+			n++
+			cnt++
+			ok := fromParam(fn, call.Common().Args[0], 0, map[ssa.Value]bool{})
+			c.R.Check(ok, "R-attempt-ctx", sprintf("context of HTTP request #%d made by an attempt in %s", cnt, fname(fn)), c.Pos(call.Pos()),
+				"descends from the function's own context parameter",
+				sprintf("%s, which runs as (part of) a retried attempt, issues its HTTP request under a context that does not descend from a context parameter of its own (a member of the transport — the event stream's context): cancelling the caller's context does not abort an attempt in flight, so the call returns only when the stalled request is answered or times out", fname(fn)))
+		})
+	}
+	c.R.Min("R-attempt-ctx", 2)
+}
